@@ -48,12 +48,20 @@ type lockUnderTest struct {
 	rLk  sync.Locker
 }
 
+var lockerOrder atomic.Int64
+
 func newLockUnderTest(rw bool) *lockUnderTest {
 	l := &lockUnderTest{}
 	if rw {
 		l.kind = "rwmutex"
 		l.rw = &csync.RWMutex{}
-		l.wLk, l.rLk = l.rw.Locker(), l.rw.RLocker()
+		// the two lockers are independent of each other, whichever is asked for first
+		if lockerOrder.Add(1)%2 == 0 {
+			l.wLk, l.rLk = l.rw.Locker(), l.rw.RLocker()
+		} else {
+			l.rLk = l.rw.RLocker()
+			l.wLk = l.rw.Locker()
+		}
 	} else {
 		l.kind = "mutex"
 		l.m = &csync.Mutex{}
@@ -460,6 +468,78 @@ func runC02(w *mon.Worker) {
 		w.Case("cancel-trace", nil, c02CancelTraceCase)
 	}
 	mon.ClearProb()
+	for i := 0; i < w.Share(w.Scale(320, 20000)); i++ {
+		w.Case("locker-preference", nil, c02LockerPreferenceCase)
+	}
+}
+
+// c02LockerPreferenceCase: writer preference also holds for read locks taken through the sync.Locker adapters, including
+// a second Lock on a shared RLocker that already holds a read lock (that is another caller, not a recursive one).
+func c02LockerPreferenceCase(c *mon.Case) {
+	r := c.Rng
+	var m csync.RWMutex
+	shared := m.RLocker()
+	second := shared
+	if r.IntN(3) == 0 {
+		second = m.RLocker()
+	}
+	shared.Lock()
+	arrived := make(chan struct{})
+	var once sync.Once
+	mon.OnSite(verifhook.RWMutexBlock, func(obj any) {
+		if obj == any(&m) {
+			once.Do(func() { close(arrived) })
+		}
+	})
+	defer mon.OnSite(verifhook.RWMutexBlock, nil)
+	var wGot, rGot atomic.Int64
+	c.Go("writer", func() {
+		rel, err := m.Lock(context.Background(), true)
+		if err == nil {
+			wGot.Store(c.Rec("writer", "acquired", nil))
+			rel()
+		}
+	})
+	select {
+	case <-arrived:
+	case <-time.After(5 * time.Second):
+		c.Inconclusive("writer never blocked")
+		shared.Unlock()
+		return
+	}
+	if !mon.Quiesce(5 * time.Second) {
+		c.Inconclusive("no quiescence with the writer blocked")
+		shared.Unlock()
+		return
+	}
+	startedAt := c.Rec("d", "second reader starts Lock through the RLocker", nil)
+	c.Go("reader2", func() {
+		second.Lock()
+		rGot.Store(c.Rec("reader2", "acquired", nil))
+		second.Unlock()
+	})
+	c.Count("locker_preference_templates", 1)
+	c.NonTrivial()
+	if !mon.Quiesce(5 * time.Second) {
+		c.Inconclusive("no quiescence")
+		shared.Unlock()
+		return
+	}
+	if rGot.Load() != 0 && wGot.Load() == 0 {
+		c.Violate("waiters", "reader-granted-while-writer-waits", "a read Lock through RLocker (same locker object as the holder: %v) started at %d while a writer was blocked; it was granted although that writer is still waiting", second == shared, startedAt)
+	}
+	shared.Unlock()
+	if !c.WaitActors(5 * time.Second) {
+		if mon.Quiesce(5 * time.Second) {
+			c.Violate("waiters", "rwmutex-grantable-waiter-blocked-on-free-lock", "after the first reader unlocked, the waiting writer / second reader never finished in a quiescent process (writer acquired at %d, reader at %d)", wGot.Load(), rGot.Load())
+		} else {
+			c.Inconclusive("actors did not finish")
+		}
+		return
+	}
+	if wGot.Load() == 0 || rGot.Load() == 0 {
+		c.Violate("waiters", "lock-foreign-error", "writer or second reader returned without acquiring")
+	}
 }
 
 // c02CancelTraceCase: a reader holds; a writer blocks and is cancelled while other goroutines hammer the lock with
